@@ -25,24 +25,25 @@ VARIABLES rel,    \* Actors -> BOOLEAN : released and not yet parked again (runn
           nprobe
 gvars == <<vars, rel, pend, hist, nprobe>>
 
-IdlePCs == {"c.idle0", "c.idle1", "s.idle", "s.idle2", "env"}
-ParkPCs == {"u.fetch", "td.close", "co.chk", "er.chk", "hb.chk", "g.werr", "u.begin", "g.begin", "g.found", "dt.begin", "sh.begin", "u.flushing"}
+IdlePCs == {"c.idle0", "c.idle1", "s.idle", "s.idle2", "env", "x.idle"}
+ParkPCs == {"u.fetch", "up.fechk", "g.hook", "h.hook", "h.werr", "td.close", "co.chk", "er.chk", "hb.chk", "g.werr", "u.begin", "g.begin", "g.found", "dt.begin", "sh.begin", "u.flushing"}
 \* (with FixInit the trig.init.found point sits inside r.mu: the start goroutine then parks holding the lock and every
 \*  release of an actor that needs r.mu meanwhile is a probe)
 ParksAt(a, pc) == pc \in IdlePCs \/ pc \in ParkPCs \/ (pc = "un.begin" /\ a[1] # "c")
-EndPCs == {"none", "c.end", "s.end", "u.end", "g.end", "sh.end", "env.end"}
+EndPCs == {"none", "h.end", "x.end", "c.end", "s.end", "u.end", "g.end", "sh.end", "env.end"}
 
 Code(ch) == CASE ch = "sub" -> 1 [] ch = "unsub" -> 2 [] ch = "rmclient" -> 3 [] ch = "update" -> 4 [] ch = "complete" -> 5
-              [] ch = "error" -> 6 [] ch = "hb" -> 7 [] ch = "done" -> 8 [] ch = "shutdown" -> 9 [] ch = "final" -> 9 [] ch \in {"cs1", "cs2", "cs3"} -> 10 [] OTHER -> 0
-CsSub(ch) == CASE ch = "cs1" -> 1 [] ch = "cs2" -> 2 [] ch = "cs3" -> 3 [] OTHER -> 0
+              [] ch = "error" -> 6 [] ch = "hb" -> 7 [] ch = "done" -> 8 [] ch = "shutdown" -> 9 [] ch = "final" -> 9 [] ch \in {"cs1", "cs2", "cs3"} -> 10 [] ch \in {"us1", "us2", "us3"} -> 11 [] ch = "cancel" -> 12 [] OTHER -> 0
+CsSub(ch) == CASE ch \in {"cs1", "us1"} -> 1 [] ch \in {"cs2", "us2"} -> 2 [] ch \in {"cs3", "us3"} -> 3 [] OTHER -> 0
 
 Choices(a) ==
   CASE ac[a].pc = "c.idle0" -> {"sub"}
     [] ac[a].pc = "c.idle1" -> {"unsub", "rmclient"}
-    [] ac[a].pc = "s.idle" -> IF a[1] = "s" THEN {"update", "complete", "error", "hb", "done"} \cup {c \in {"cs1", "cs2", "cs3"} : CsSub(c) \in Subs}
+    [] ac[a].pc = "s.idle" -> IF a[1] = "s" THEN {"update", "complete", "error", "hb", "done"} \cup {c \in {"cs1", "cs2", "cs3", "us1", "us2", "us3"} : CsSub(c) \in Subs}
                               ELSE {"update", "done"}
     [] ac[a].pc = "s.idle2" -> {"done"}
     [] ac[a].pc = "env" -> {"shutdown", "final"}
+    [] ac[a].pc = "x.idle" -> {"cancel"}
     [] ac[a].pc = "u.flushing" -> {"ok", "err"}
     [] ac[a].pc = "hb.chk" -> IF g.removed[ac[a].cur] THEN {"ok"} ELSE {"ok", "err"}
     [] OTHER -> {"-"}
@@ -51,14 +52,16 @@ NobodyRuns == \A x \in Actors : ~rel[x]
 \* setup phase over: every subscriber added, every start goroutine through
 SetupDone == /\ \A s \in Subs : ac[C(s)].pc \notin {"c.idle0", "c.sub", "c.added"}
              /\ \A i \in Inst : ac[G(i)].pc \in {"none", "g.end"}
-InSetup(a, ch) == \/ (a[1] = "c" /\ ch = "sub" /\ \A q \in Subs : q < a[2] => (ac[C(q)].pc = "c.idle1" /\ ac[G(q)].pc \in {"none", "g.end"}))
+InSetup(a, ch) == \/ (a[1] = "c" /\ ch = "sub" /\ \A q \in Subs : q < a[2] => (ac[C(q)].pc \in {"c.idle1", "c.wait"} /\ ac[G(q)].pc \in {"none", "g.end"}))
                   \/ a[1] = "g"
 
 ChoiceValid(a, ch) ==
   CASE ch = "sub" -> ~o.final
     [] ch \in {"unsub", "rmclient"} -> o.nterm < MaxTerm /\ ~o.final
     [] ch \in {"complete", "error"} -> o.nsterm < MaxSrcTerm /\ SrcReady(a)
-    [] ch \in {"cs1", "cs2", "cs3"} -> AllowCloseSub /\ o.nterm < MaxTerm /\ SrcReady(a) /\ CsSub(ch) \in g.isubs[Inst0(a)]
+    [] ch \in {"cs1", "cs2", "cs3"} -> ~Sync(CsSub(ch)) /\ AllowCloseSub /\ o.nterm < MaxTerm /\ SrcReady(a) /\ CsSub(ch) \in g.isubs[Inst0(a)]
+    [] ch = "cancel" -> o.nterm < MaxTerm /\ ~o.final /\ ac[C(a[2])].pc = "c.wait" /\ \A e \in Events : ac[U(a[2], e)].pc \in {"none", "u.end"}
+    [] ch \in {"us1", "us2", "us3"} -> AllowCloseSub /\ SrcReady(a) /\ o.nev < MaxEvents /\ ~Sync(CsSub(ch))
     [] ch = "update" -> SrcReady(a) /\ o.nev < MaxEvents
     [] ch = "hb" -> SrcReady(a) /\ o.nhb < MaxHB
     [] ch = "done" -> SrcReady(a) /\ (ac[a].pc = "s.idle2" \/ o.nsterm < MaxSrcTerm)
@@ -79,6 +82,7 @@ Release(a, ch) ==
 ChoiceOK(a) ==
   /\ (lab'.n = "h.cmd" => /\ lab'.x = Code(pend[a])
                           /\ (lab'.x = 10 => lab'.z = CsSub(pend[a]))
+                          /\ (lab'.x = 11 => lab'.z % 10 = CsSub(pend[a]))
                           /\ (a = ENV => lab'.y = IF pend[a] = "final" THEN 1 ELSE 0))
   /\ (lab'.n = "w.flush" => lab'.z = IF pend[a] = "err" THEN 0 ELSE 1)
   /\ (lab'.n = "w.hb" => lab'.y = IF pend[a] = "err" THEN 0 ELSE 1)
@@ -101,7 +105,7 @@ GenSpec == GenInit /\ [][GenNext]_gvars
 \* a complete behaviour: resolver shut down, everything at rest
 Done == Quiet /\ NobodyRuns
 Emit == IF Done
-        THEN PrintT(ToJson([key |-> cfg.key, filt |-> cfg.filt, conn |-> cfg.conn, start |-> cfg.start, fetch |-> cfg.fetch, steps |-> hist,
+        THEN PrintT(ToJson([key |-> cfg.key, filt |-> cfg.filt, conn |-> cfg.conn, start |-> cfg.start, fetch |-> cfg.fetch, rerr |-> cfg.rerr, hooks |-> cfg.hooks, hookfail |-> cfg.hookfail, sync |-> cfg.sync, steps |-> hist,
                             wdata |-> o.wdata, wafter |-> o.wafter # {}, stale |-> o.stale # {}, late |-> o.lateInit]))
         ELSE TRUE
 GenConstraint == Emit
@@ -113,7 +117,21 @@ GenView == <<cfg, g, o, ac, rel, pend, hist, nprobe>>
 
 NoFetch(c) == c.fetch = [s \in Subs |-> FALSE]
 CfgAll(c) == TRUE
+FeatNone == {}
+FeatFetch == {"fetch"}
+FeatErr == {"ferr", "rerr"}
+FeatHooks == {"hooks"}
+FeatAll == {"fetch", "ferr", "rerr", "hooks", "sync"}
+FeatSync == {"sync"}
 \* both subscribers of one trigger resolve a nested fetch per event
+\* one trigger, both subscribers: a failing filter / a failing render on subscriber 2 only
+CfgErr(c) == c.key = [s \in Subs |-> 1] /\ c.conn = [s \in Subs |-> s] /\ c.fetch = AllFalse /\ c.filt[1] = "all" /\ c.rerr[1] = FALSE
+             /\ (c.filt[2] = "err" \/ c.rerr[2]) /\ c.filt[2] # "odd"
+CfgNoHooks(c) == ~c.hooks /\ ~c.sync
+\* subscriber 1 is synchronous; one or two triggers
+CfgSync(c) == c.sync /\ c.filt = [s \in Subs |-> "all"] /\ c.conn = [s \in Subs |-> s]
+\* one trigger, hookable source, every combination of failing start-up hooks
+CfgHooks(c) == ~c.sync /\ c.hooks /\ c.key = [s \in Subs |-> 1] /\ c.filt = [s \in Subs |-> "all"] /\ c.conn = [s \in Subs |-> s] /\ c.fetch = AllFalse /\ c.rerr = AllFalse
 CfgFetch(c) == c.key = [s \in Subs |-> 1] /\ c.filt = [s \in Subs |-> "all"] /\ c.conn = [s \in Subs |-> s] /\ c.fetch = [s \in Subs |-> TRUE]
 CfgSame(c) == NoFetch(c) /\ c.key = [s \in Subs |-> 1] /\ c.filt[1] = "all" /\ c.conn = [s \in Subs |-> s]
 CfgDiff(c) == NoFetch(c) /\ c.key = [s \in Subs |-> s] /\ c.filt[1] = "all" /\ c.filt[2] = "all" /\ c.conn = [s \in Subs |-> 1]
